@@ -25,13 +25,14 @@ JOBS = [
          note='UNDECIDED: MiniSat > 25 min, CaDiCaL out of memory at 8 GB; loop-step obligations need > 150 s each. Reach canaries confirmed only for the tiny-input path after the __CPROVER_old(op) fix',
          replayer=dict(kind='fuzz', harness='replay/fz/snappy_compress.c', sources=['src/compression/snappy.c'], max_len=64, secs=20),
          defines=['CQV_OWN_MEM=1'], extra_sources=[], trusted=[OWNMEM], **SC9),
-    # same contract plus the obligation that the length preamble can represent src_size
+    # cheap slice of the same contract: lengths the 32-bit preamble cannot represent are refused without a write
+    # (postcondition.1/.2 = the first two ensures of the overlay) and the preamble written is never truncated
     dict(name='c09_snappy_compress_len32', props=['C09', 'C10'], entry='h_c09_compress', enforce='carquet_snappy_compress',
          replace=['carquet_snappy_compress_bound', 'snappy_write_varint', 'snappy_emit_literal', 'snappy_emit_copy'],
-         min_loop_obligations=2, est_s=900, timeout=2400, tier='thorough', backend='cadical', wip=True,
-         note='FINDING: src_size >= 2^32 is accepted, (uint32_t)src_size is written as the preamble, CARQUET_OK is returned; '
-              'the stream does not round-trip (native demo /tmp/snappyc/snappy_4g.c)',
-         extra_sources=[], trusted=[OWNMEM], **dict(SC9, defines=['CQV_LEN32=1', 'CQV_OWN_MEM=1'])),
+         select=r'carquet_snappy_compress\.postcondition\.[12] |representable in the 32-bit preamble',
+         min_loop_obligations=0, est_s=120, timeout=900, wip=True,
+         note='was FINDING (src_size >= 2^32 accepted, truncated preamble); fixed upstream by ee97737',
+         defines=['CQV_OWN_MEM=1'], extra_sources=[], trusted=[OWNMEM], **SC9),
     dict(name='c10_snappy_varint', prop='C10', entry='h_c10_varint', loop_contracts=False, unwind=6,
          functions=['snappy_write_varint'], trusted=[SPEC], wip=False, **SC10),
     dict(name='c10_snappy_emit_literal', prop='C10', entry='h_c10_emit_literal', loop_contracts=False,
@@ -52,11 +53,11 @@ ZST = dict(overlays=['contracts/zstd.ovl'], harness='harness/C08/zwrap.c', defin
 JOBS += [
     dict(name='c08_gzip_decompress', props=['C08', 'C09'], entry='h_gzip_decompress', enforce='carquet_gzip_decompress', wip=False, **GZ),
     dict(name='c09_gzip_compress', prop='C09', entry='h_gzip_compress', enforce='carquet_gzip_compress', wip=False, **GZ),
-    dict(name='c09_gzip_compress_whole_input', prop='C09', entry='h_gzip_compress', enforce='carquet_gzip_compress', wip=True,
-         note='FINDING: (uInt)src_size / (uInt)dst_capacity truncation, sizes >= 2^32 compress only a prefix and report OK',
+    dict(name='c09_gzip_compress_whole_input', prop='C09', entry='h_gzip_compress', enforce='carquet_gzip_compress', wip=False,
+         note='was FINDING ((uInt) truncation of sizes >= 2^32); fixed upstream by 6a1a675; fails again with that commit reverted',
          **dict(GZ, defines=['CQV_ZWRAP=1', 'CQV_WHOLE_INPUT=1'])),
-    dict(name='c09_gzip_decompress_whole_input', prop='C09', entry='h_gzip_decompress', enforce='carquet_gzip_decompress', wip=True,
-         note='FINDING: (uInt)src_size / (uInt)dst_capacity truncation in carquet_gzip_decompress for sizes >= 2^32',
+    dict(name='c09_gzip_decompress_whole_input', prop='C09', entry='h_gzip_decompress', enforce='carquet_gzip_decompress', wip=False,
+         note='was FINDING ((uInt) truncation of sizes >= 2^32); fixed upstream by 6a1a675; fails again with that commit reverted',
          **dict(GZ, defines=['CQV_ZWRAP=1', 'CQV_WHOLE_INPUT=1'])),
     dict(name='c09_gzip_bound', prop='C09', entry='h_gzip_bound', enforce='carquet_gzip_compress_bound', wip=False, **GZ),
     dict(name='c08_zstd_decompress', props=['C08', 'C09'], entry='h_zstd_decompress', enforce='carquet_zstd_decompress', wip=False, **ZST),
